@@ -42,6 +42,7 @@ type loopInfo struct {
 }
 
 type FuncExec struct {
+	envWrites map[string][]string // heap key -> refs havocked at Lock (interference, not this function's writes)
 	V       *Verifier
 	fn      *ssa.Function
 	fc      *FuncContract
@@ -81,6 +82,7 @@ type FuncExec struct {
 	callNames map[ssa.Instruction]string
 	callOrdStatic map[ssa.Instruction]int
 	storeOrd map[ssa.Instruction]int
+	mapUpdOrd map[ssa.Instruction]int
 	storeField map[ssa.Instruction]string
 	quantsOf map[string][]quantRec
 	qfacts   []qfact
@@ -187,6 +189,7 @@ func (fx *FuncExec) skolemize(st *State, ob *Obligation) {
 		return
 	}
 	var hints []string
+	hintsBySort := map[string][]string{}
 	if fx.fc != nil {
 		env := fx.specEnv(st, fx.entry)
 		if fx.curInstr != nil && fx.curInstr.Block() != nil {
@@ -206,6 +209,8 @@ func (fx *FuncExec) skolemize(st *State, ob *Obligation) {
 				v := fx.evalSpec(&e2, h.Expr)
 				if v.Sort == SInt {
 					hints = append(hints, v.S)
+				} else if v.S != "" {
+					hintsBySort[string(v.Sort)] = append(hintsBySort[string(v.Sort)], v.S)
 				}
 			}()
 		}
@@ -213,7 +218,11 @@ func (fx *FuncExec) skolemize(st *State, ob *Obligation) {
 	goal := ob.goal
 	var terms []string
 	var univ []quantRec
+	termsBySort := map[string][]string{}
 	for _, r := range recs {
+		if r.sort != "" {
+			continue
+		}
 		if r.exists {
 			// an existential to prove: the hints are candidate witnesses (proving the disjunction of
 			// the instances proves the existential)
@@ -228,6 +237,19 @@ func (fx *FuncExec) skolemize(st *State, ob *Obligation) {
 			continue
 		}
 		univ = append(univ, r)
+	}
+	for i, r := range recs {
+		if r.sort == "" || r.exists {
+			continue
+		}
+		sk := fmt.Sprintf("|sks%d!%d|", i, fx.em.n)
+		fx.em.n++
+		ob.extra = append(ob.extra, fmt.Sprintf("(declare-const %s %s)", sk, r.sort))
+		goal = strings.Replace(goal, r.text, strings.ReplaceAll(r.body, r.bound, sk), 1)
+		termsBySort[r.sort] = append(termsBySort[r.sort], sk)
+	}
+	for k, hs := range hintsBySort {
+		termsBySort[k] = append(termsBySort[k], hs...)
 	}
 	recs = univ
 	for i, r := range recs {
@@ -251,7 +273,11 @@ func (fx *FuncExec) skolemize(st *State, ob *Obligation) {
 			continue
 		}
 		for _, r := range qf.recs {
-			for _, t := range terms {
+			ts := terms
+			if r.sort != "" {
+				ts = termsBySort[r.sort]
+			}
+			for _, t := range ts {
 				inst := strings.Replace(qf.clause, r.text, strings.ReplaceAll(r.body, r.bound, t), 1)
 				ob.extra = append(ob.extra, "(assert "+imp(qf.pc, inst)+")")
 				n++
@@ -403,6 +429,7 @@ func (fx *FuncExec) runBody() {
 	}
 	fx.callOrd = map[string]int{}
 	fx.unlockOrd, fx.lockOrd = 0, 0
+	fx.envWrites = nil
 	fx.paramVals = map[string]Val{}
 	fx.modelTerms = map[string]string{}
 	top := fx.heapTerm(st, topKey, "Int", nil)
@@ -1056,6 +1083,41 @@ func (fx *FuncExec) execMapUpdate(st *State, x *ssa.MapUpdate) {
 	st.heaps[vk] = fx.em.DefineRaw(vk, fx.heapInfos[vk].sortText, sto(vh, base.S, sto(sel(vh, base.S), k.S, v.S)))
 	fx.logWriteAt(dk, base.S)
 	fx.logWriteAt(vk, base.S)
+	fx.afterMapUpdate(st, x, []Val{base, k, v})
+}
+
+// afterMapUpdate: `at store map#N assert e` - e must hold right after the N-th (source order) map
+// assignment m[k] = v of the function; arg0/arg1/arg2 are the map, the key and the value.
+func (fx *FuncExec) afterMapUpdate(st *State, x *ssa.MapUpdate, args []Val) {
+	if fx.fc == nil || len(fx.fc.Stores) == 0 {
+		return
+	}
+	if fx.mapUpdOrd == nil {
+		fx.mapUpdOrd = map[ssa.Instruction]int{}
+		var ins []ssa.Instruction
+		for _, b := range fx.fn.Blocks {
+			for _, in := range b.Instrs {
+				if _, ok := in.(*ssa.MapUpdate); ok {
+					ins = append(ins, in)
+				}
+			}
+		}
+		sort.SliceStable(ins, func(i, j int) bool { return ins[i].Pos() < ins[j].Pos() })
+		for i, in := range ins {
+			fx.mapUpdOrd[in] = i + 1
+		}
+	}
+	for _, ss := range fx.fc.Stores {
+		if ss.Callee == "map" && ss.Ordinal == fx.mapUpdOrd[x] {
+			env := fx.specEnv(st, fx.entry)
+			env.callArgs = args
+			fx.withLoop(env, st)
+			for _, a := range ss.Asserts {
+				fx.oblige("assert@store", st, fx.evalBool(env, a), fmt.Sprintf("after map assignment #%d: %s", ss.Ordinal, a.Text), x.Pos())
+			}
+			fx.usedCallSites[ss] = true
+		}
+	}
 }
 
 func (fx *FuncExec) execSlice(st *State, x *ssa.Slice) {
